@@ -7,7 +7,7 @@ import torch
 import torchphysics as tp
 
 from . import train_common as T
-from torchphysics.problem.spaces import Points
+from torchphysics.problem.spaces import Points, Space
 
 PROP = "C19"
 LEVEL = "model_checking"
@@ -34,7 +34,7 @@ def items(tier):
     for kinds in CONFIGS:
         for opt in OPTS:
             out.append({"name": "resume|%s|%s" % ("+".join(kinds), opt), "fam": "resume", "kinds": kinds, "opt": opt, "tier": tier, "cost": 5})
-    for kinds in (["pinn_static", "boundary"], ["pinn_param", "param_penalty"], ["qres", "boundary"], ["ritznet"]):
+    for kinds in (["pinn_static", "boundary"], ["pinn_param", "param_penalty"], ["qres", "boundary"], ["ritznet"], ["fno_data"]):
         out.append({"name": "weights|%s" % "+".join(kinds), "fam": "weights", "kinds": kinds, "tier": tier, "cost": 3})
     return out
 
@@ -127,11 +127,21 @@ def weights(item, res, viol, tmp):
         shutil.rmtree(path, ignore_errors=True)
         os.makedirs(path)
         w0 = T.World()
-        mdl = (lambda w_: w_.model3) if "qres" in kinds else ((lambda w_: w_.model4) if "ritznet" in kinds else (lambda w_: w_.model))
+        mdl = (lambda w_: w_.model3) if "qres" in kinds else ((lambda w_: w_.model4) if "ritznet" in kinds else (
+            (lambda w_: w_.model5) if "fno_data" in kinds else (lambda w_: w_.model)))
         probe = Points(torch.linspace(0.05, 0.95, 7).reshape(-1, 1), T.X)
+        if "fno_data" in kinds:
+            probe = Points(torch.cos(torch.linspace(0, 2, 12)).reshape(2, 6, 1), Space({"f": 1}))
         before = {k: v.clone() for k, v in mdl(w0).state_dict().items()}
-        with torch.no_grad():
-            out_before = mdl(w0)(probe).as_tensor.clone()
+        def eval_out(m_):
+            """outputs in EVALUATION mode (running statistics of normalisation layers are used), mode restored afterwards"""
+            was = m_.training
+            m_.eval()
+            with torch.no_grad():
+                o_ = m_(probe).as_tensor.clone()
+            m_.train(was)
+            return o_
+        out_before = eval_out(mdl(w0))
         try:
             cb = tp.utils.WeightSaveCallback(mdl(w0), path, "net", check_interval=interval, save_initial_model=init, save_final_model=final)
             snaps, osnaps, iters, named, handed, w = T.solver_run(kinds, wts, "adam", N, extra_callbacks=[cb], world=w0, snap_model=mdl(w0))
@@ -141,8 +151,7 @@ def weights(item, res, viol, tmp):
         res["evals"] += 1
         res["transitions"] += N
         after = {k: v.clone() for k, v in mdl(w).state_dict().items()}
-        with torch.no_grad():
-            out_after = mdl(w)(probe).as_tensor.clone()
+        out_after = eval_out(mdl(w))
         per_step = w.sd_snaps          # full state dicts of the model after every step
         ok = True
         for fname, want, expect, out_expect in (("net_init.pt", init, before, out_before), ("net_final.pt", final, after, out_after)):
@@ -166,8 +175,7 @@ def weights(item, res, viol, tmp):
                         ok = False
                         break
                 # ... and the loaded model IS that model: same outputs (state that is not in the file would show here)
-                with torch.no_grad():
-                    got = fresh(probe).as_tensor
+                got = eval_out(fresh)
                 if ok and not torch.equal(got, out_expect):
                     viol("C19|weight-file-outputs|%s" % fname, "%s: a freshly built model (other random initialisation) loaded from %s gives other outputs than the model %s training (max difference %.3g)" % (
                         cfg, fname, "before" if "init" in fname else "after", float((got - out_expect).abs().max())))
